@@ -164,6 +164,9 @@ class Ledger:
             g = self.dead_by_guard(s)
             if g:
                 return "dead-guard", g
+            g = self.guarded_at_callsites(s)
+            if g:
+                return "guarded-at-callers", g
         # 4. protocol asserts
         if s.kind == "assert":
             r = self.protocol_assert(s)
@@ -203,6 +206,29 @@ class Ledger:
             if not ok:
                 return None
         return f"every call site ({', '.join(sorted({r.qual for r, _ in sites}))}) catches {s.cls}"
+
+    def guarded_at_callsites(self, s):
+        """a raise under `if self.<flag>:` in a method is dead when every call site has established `<receiver>.<flag>` false
+        (it sits in the else / after an `if <receiver>.<flag>: ... continue|return|raise`): the precondition form of the
+        catch-at-every-call-site rule"""
+        conds = [(t, b) for t, b in self.enclosing_tests(s.node)]
+        flags = [norm(t)[len("self."):] for t, b in conds if b and isinstance(t, ast.Attribute) and isinstance(t.value, ast.Name) and t.value.id == "self"]
+        if len(flags) != 1 or len(conds) != 1:
+            return None
+        flag = flags[0]
+        name = s.ref.qual.split(".")[-1]
+        sites = []
+        for ref in self.refs:
+            for c in walk_no_nested(ref.node):
+                if isinstance(c, ast.Call) and isinstance(c.func, ast.Attribute) and c.func.attr == name and ref.key != s.ref.key \
+                        and self.may_call(ref, c, s.ref):
+                    sites.append((ref, c))
+        if not sites:
+            return None
+        for ref, c in sites:
+            if self.known_value(c, f"{norm(c.func.value)}.{flag}") is not False:
+                return None
+        return f"every call site ({', '.join(sorted({r.qual for r, _ in sites}))}) has tested `.{flag}` false before the call"
 
     def may_call(self, caller, call, callee):
         """receiver-based refinement of method resolution for the two constraint classes"""
